@@ -9,6 +9,7 @@
      LeafR.v    norms / dist of tensor and discretized leaves, every exponent
      TreeNorm.v norms / dist on nested product spaces with mixed exponents
      OneNorm.v  ||one|| = sqrt(volume) stated on uniform_discr inputs
+     ComplexTree.v complex product trees on (re, im): decomposition, conjugate symmetry, C-linearity
      TreeDist.v dist = norm(x - y) on the exponent-2-through-inner branch; symmetry of dist
    This file only re-exports them. *)
-From Verif Require Export C02.Roots C02.IPS C02.TensorR C02.Mink C02.ComplexR C02.DiscrR C02.TreeR C02.LeafR C02.TreeNorm C02.TreeDist C02.OneNorm.
+From Verif Require Export C02.Roots C02.IPS C02.TensorR C02.Mink C02.ComplexR C02.DiscrR C02.TreeR C02.LeafR C02.TreeNorm C02.TreeDist C02.OneNorm C02.ComplexTree.
